@@ -168,6 +168,26 @@ func serverBudgetProbes(c *Ctx) {
 				if !ran || !has || remaining > want || remaining < want-2*time.Second {
 					c.Fail("tmo-server-budget", desc, fmt.Sprintf("ran=%v deadline=%v remaining=%v", ran, has, remaining.Round(time.Millisecond)), fmt.Sprintf("the handler's deadline must be the earlier of the two (about %v away)", want))
 				}
+				// the same against the model: snap what the handler saw to the candidate it is just
+				// below (the two candidates are seconds apart or equal)
+				ans := "none"
+				if ran && has {
+					ans = fmt.Sprintf("ms=?%d", remaining.Milliseconds())
+					for _, cand := range []int64{tc.budget.Milliseconds(), tc.peerMs} {
+						if cand > 0 && remaining.Milliseconds() <= cand && remaining.Milliseconds() > cand-2000 {
+							ans = fmt.Sprintf("ms=%d", cand)
+						}
+					}
+				}
+				hdrv := "-"
+				if tc.peerMs > 0 {
+					if proto == "connect" {
+						hdrv = hx([]byte(strconv.FormatInt(tc.peerMs, 10)))
+					} else {
+						hdrv = hx([]byte(strconv.FormatInt(tc.peerMs, 10) + "m"))
+					}
+				}
+				c.Emit(fmt.Sprintf("tbudget proto=%s kind=%s budget=%d hdr=%s", proto, kind, tc.budget.Milliseconds(), hdrv), ans, true)
 			}
 		}
 	}
